@@ -864,6 +864,21 @@ def gen_edge_families():
         ar += ['let x = %s(1, [1]);' % op, 'let x = %s("f", [1]);' % op, 'let x = %s(NULL, [1]);' % op, 'let x = %s([1], [1]);' % op, 'let x = %s(m, [1]);' % op,
                'let x = %s(func(a) => a);' % op, 'let x = %s(func(a) => a, [1], [2]);' % op, 'let x = %s();' % op]
     ar += ['let x = reduce(1, 0, [1]);', 'let x = reduce(func(a, b) => a, [1]);', 'let x = reduce(func(a, b) => a, 0, [1], 2);', 'let x = reduce();']
+    # parameter lists that repeat a name, called with every number of arguments (directly, through a higher-order function, as callbacks)
+    rp = []
+    for plist in (['a', 'a'], ['a', 'b', 'a'], ['a', 'a', 'a'], ['a', 'b', 'b', 'a']):
+        ps = ', '.join(plist)
+        for a in range(0, len(plist) + 2):
+            args = ', '.join(str(i + 1) for i in range(a))
+            rp.append('let g = func(%s) => a; let x = g(%s);' % (ps, args))
+            rp.append('let g = func(%s) => a; let ap = func(h) => h(%s); let x = ap(g);' % (ps, args))
+            rp.append('let x = (func(%s) => a)(%s);' % (ps, args))
+        for op in ['map', 'filter']:
+            rp.append('let x = %s(func(%s) => a, [1, 2]);' % (op, ps))
+            rp.append('let x = %s(func(%s) => a, {k = 1});' % (op, ps))
+        rp.append('let x = reduce(func(%s) => a, 0, [1, 2]);' % ps)
+        rp.append('let m = module {%s} => (r) { let r = 1; }; let x = m{};' % ', '.join('%s = %d' % (n, i) for i, n in enumerate(plist)))
+    fam['repeated_params'] = [PRE + s for s in rp]
     fam['wrong_arity'] = [PRE + s for s in ar]
     fam['regex_patterns'] = [PRE + 'let x = %s %s "%s";' % (lhs, op, pat) for pat in BAD_PATTERNS for op in ['~', '!~'] for lhs in ['"a"', '""', '1']]
     fm = []
@@ -916,7 +931,7 @@ def standin_generated_edges(tier, seed):
     fam = gen_edge_families()
     thorough = tier == 'thorough'
     quota = dict(regressions=None, casts_of_garbage=None if thorough else 40, expr_templates=None if thorough else 150, stmt_templates=None if thorough else 80,
-                 binary_operators=12000 if thorough else 150, wrong_arity=None if thorough else 80, regex_patterns=None if thorough else 30,
+                 binary_operators=12000 if thorough else 150, wrong_arity=None if thorough else 80, repeated_params=None, regex_patterns=None if thorough else 30,
                  format_templates=None if thorough else 60, arithmetic_edges=None if thorough else 150, nesting=None)
     srcs, counts = [], {}
     for name in sorted(fam):
